@@ -120,6 +120,8 @@ type world struct {
 	shared *sharedRA
 	// raCerts: blobs of the certificates the RA was seen adding to the agent in earlier runs
 	raCerts map[string]bool
+	// dirNow: key directory states changed between runs (name -> state)
+	dirNow map[string]string
 }
 
 type sharedRA struct {
@@ -162,13 +164,52 @@ func (w *world) registered(name string) [][]byte {
 		return nil
 	}
 	own := keys.Pub(u.KeyKind, userKeyLabel(name)).Marshal()
-	switch u.Dir {
+	switch w.dirState(name) {
 	case "pub", "pub_commented", "bare", "both_same":
 		return [][]byte{own}
 	case "both_diff":
 		return [][]byte{own, keys.Pub(u.KeyKind, altKeyLabel(name)).Marshal()}
+	case "rotated":
+		return [][]byte{keys.Pub(u.KeyKind, altKeyLabel(name)).Marshal()}
 	}
 	return nil
+}
+
+// dirState is the current state of the key directory for a name (it may change between runs).
+func (w *world) dirState(name string) string {
+	if st, ok := w.dirNow[name]; ok {
+		return st
+	}
+	if u := w.user(name); u != nil {
+		return u.Dir
+	}
+	return "unknown-user"
+}
+
+// changeDir alters the key directory between two runs: the registered key is rotated (replaced by another
+// one), deleted, or registered for the first time.
+func (w *world) changeDir(name, how string) {
+	u := w.user(name)
+	if u == nil || strings.ContainsAny(name, "/\x00") {
+		return
+	}
+	kd := filepath.Join(w.dir, "keys")
+	pub, bare := filepath.Join(kd, name+".pub"), filepath.Join(kd, name)
+	os.RemoveAll(pub)
+	os.RemoveAll(bare)
+	if w.dirNow == nil {
+		w.dirNow = map[string]string{}
+	}
+	switch how {
+	case "rotate":
+		os.WriteFile(pub, authorizedLine(u.KeyKind, altKeyLabel(name), "rotated"), 0o644)
+		w.dirNow[name] = "rotated"
+	case "delete":
+		w.dirNow[name] = "none"
+	case "register":
+		os.WriteFile(pub, authorizedLine(u.KeyKind, userKeyLabel(name), "registered"), 0o644)
+		w.dirNow[name] = "pub"
+	}
 }
 
 func authorizedLine(kind, label, comment string) []byte {
@@ -551,6 +592,9 @@ func (c *scriptedCA) Sign(ctx context.Context, req *proto.SSHCertificateSigningR
 	ob := caObs{seq: c.w.next(), req: gproto.Clone(req).(*proto.SSHCertificateSigningRequest), stub: strings.HasPrefix(req.GetKeyId(), "stub-csr")}
 	defer func() { c.w.cur.ca = append(c.w.cur.ca, ob) }()
 	fail, pan := false, false
+	if c.run.CA.DelaySec > 0 {
+		time.Sleep(time.Duration(c.run.CA.DelaySec) * time.Second) // a slow CA (simulated clock)
+	}
 	if c.run.CA.Mode != "ok" && c.run.CA.FailAt == idx {
 		fail, pan = true, c.run.CA.Mode == "panic"
 	}
@@ -651,6 +695,9 @@ func (w *world) doRun(run *GRun, extra extraFault) *runObs {
 	w.runs = append(w.runs, ob)
 	if run.AdvanceS > 0 {
 		time.Sleep(time.Duration(run.AdvanceS) * time.Second)
+	}
+	if run.DirChange != "" {
+		w.changeDir(run.LogName, run.DirChange)
 	}
 	ob.before = w.ref.Snapshot()
 	ob.nowBefore = time.Now()
